@@ -316,6 +316,28 @@ def run_aggregate(unit) -> UnitResult:
             if abs(f.maximizing_aggregate - want) > 1e-9:
                 r.add_violation(Violation(PROP, "Problem.evaluate", "aggregate-not-from-recorded-components", {"mode": mode}, w0,
                                           f"{mode}: recorded components {comps} but aggregate {f.maximizing_aggregate} (expected {want})"))
+    if mode.startswith("multi"):
+        # a stateful scorer that returns its own (reused) list object: what was recorded for an earlier individual must
+        # not change when a later one is evaluated
+        scores = [0.0, 0.0]
+
+        def reusing(p):
+            scores[0] = float(p.v)
+            scores[1] = float(10 * p.v)
+            return scores
+
+        prr = MultiObjectiveProblem([False, True], reusing) if mode != "multi-boolT" else MultiObjectiveProblem(True, reusing)
+        rep1 = StubRepresentation(3)
+        inds1 = [Individual(rep1._new(i + 1), rep1) for i in range(3)]
+        SequentialEvaluator().evaluate(prr, inds1)
+        r.executions += 3
+        for ind in inds1:
+            comps = list(ind.get_fitness(prr).fitness_components)
+            if comps != [float(ind.genotype.v), float(10 * ind.genotype.v)]:
+                r.add_violation(Violation(PROP, "Problem.evaluate", "recorded-fitness-changed-later", {"mode": mode}, {"unit": unit},
+                                          f"{mode}: individual v={ind.genotype.v} is recorded with components {comps} after later individuals were evaluated "
+                                          f"(the fitness function reuses one list object)"))
+                break
     for vals in itertools.product([-1.0, 0.0, 2.0, 0.5], repeat=2):
         if mode == "single-max":
             pr = SingleObjectiveProblem(lambda p: vals[0], minimize=False)
